@@ -185,3 +185,33 @@ Fixpoint has_ty (t : ty) (v : val) : bool :=
       | _ => false
       end
   end.
+
+(* shape_ty: like has_ty but integer leaves may hold ANY integer (C07: out-of-range values) *)
+Fixpoint shape_ty (t : ty) (v : val) : bool :=
+  match t with
+  | TBool => match v with VB _ => true | _ => false end
+  | TByte => match v with VZ _ => true | _ => false end
+  | TUint _ => match v with VZ _ => true | _ => false end
+  | TInt _ => match v with VZ _ => true | _ => false end
+  | TEnum n ms => match v with VZ z => existsb (Z.eqb z) ms | _ => false end
+  | TAlias t => shape_ty t v
+  | TArr _ cap e =>
+      match v with
+      | VL l => Nat.eqb (length l) cap && forallb (shape_ty e) l
+      | _ => false
+      end
+  | TMsg _ fs =>
+      match v with
+      | VM vs =>
+          (fix go (l : list (Z * ty)) : bool :=
+             match l with
+             | [] => true
+             | kf :: r =>
+                 match lookup (fst kf) vs with
+                 | Some fv => shape_ty (snd kf) fv
+                 | None => false
+                 end && go r
+             end) fs
+      | _ => false
+      end
+  end.
